@@ -544,3 +544,4 @@ def run(ctx):
     boundaries.check_calls(ctx, 'C12.RC', 'C12')
     from .. import errdisc
     errdisc.check(ctx, 'C12.RD', 'C12', 9)
+    boundaries.check_guards(ctx, 'C12.RG', 'C12')
